@@ -66,7 +66,7 @@ theorem ht_none_iff (ht : Nat) : ((ht : Int) % 32 = 2) ↔ isNone ht = true := b
 theorem ht_single_iff (ht : Nat) : ((ht : Int) % 32 = 3) ↔ isSingle ht = true := by
   unfold isSingle SIGHASH_SINGLE; rw [decide_eq_true_iff]; omega
 theorem ht_acp_iff (ht : Nat) : ((ht : Int) / 128 % 2 ≠ 0) ↔ isAnyoneCanPay ht = true := by
-  unfold isAnyoneCanPay; rw [decide_eq_true_iff]; omega
+  unfold isAnyoneCanPay SIGHASH_ANYONECANPAY; rw [decide_eq_true_iff]; omega
 theorem htAcp_eq (ht : Nat) : htAnyoneCanPay (ht : Int) = isAnyoneCanPay ht := by
   unfold htAnyoneCanPay
   by_cases h : isAnyoneCanPay ht = true
